@@ -92,7 +92,7 @@ impl Prop for C02 {
         ]
     }
     fn cases(tier: Tier) -> u32 {
-        tier.pick(4_000, 300_000)
+        tier.pick(4_000, 1_000_000)
     }
     fn strategy(tier: Tier) -> BoxedStrategy<BFCase> {
         let mut p = params(tier);
